@@ -267,8 +267,22 @@ def sub(a, b):
     return a - b
 
 
+def _is_num_ite(t):
+    return is_z3(t) and z3.is_app_of(t, z3.Z3_OP_ITE) and all(z3.is_int_value(x) or z3.is_rational_value(x) for x in t.children()[1:])
+
+
 def mul(a, b):
     a, b = _num2(a, b)
+    # keep products of 0/1 indicator terms linear: If(c, k1, k2) * t  ==  If(c, k1*t, k2*t)
+    if _is_num_ite(a):
+        c, x, y = a.children()
+        return z3.If(c, mul(x, b), mul(y, b))
+    if _is_num_ite(b):
+        c, x, y = b.children()
+        return z3.If(c, mul(a, x), mul(a, y))
+    if is_z3(a) and is_z3(b):
+        if z3.is_int_value(a) or z3.is_rational_value(a) or z3.is_int_value(b) or z3.is_rational_value(b):
+            return z3.simplify(a * b)
     return a * b
 
 
